@@ -72,6 +72,27 @@ SUFFIXES = [ord(c) for c in 'x]}[{",:0-tfn\\/.e+*#'] + [0, 1, 127, 128, 255]
 CONTROL_SUFFIXES = [x for x in range(0, 32) if x not in (9, 10, 13)] + [127, 133, 160]
 
 
+def wide_suffixes(rng, w, n=8):
+    """non-whitespace units of a wide build whose low byte (or low 16 bits) is a whitespace / structural unit"""
+    if w == "1":
+        return []
+    base = [32, 9, 10, 13, 93, 125, 44, 0]
+    out = [0x2009, 0x200A, 0x2020, 0x0120, 0x010A, 0x010D, 0x0109, 0x3009, 0xFF0D, 0x2028, 0x00A0, 0x0085, 0xFEFF]
+    out += [b + 0x100 * k for b in base for k in (1, 0x20, 0xFF)]
+    if w in ("4", "W"):
+        out += [b + k for b in base for k in (0x10000, 0x100000, 0x1000000, 0x80000000)]
+    out = [x for x in out if x not in (32, 9, 10, 13)]
+    return rng.sample(out, min(n, len(out)))
+
+
+def alias_unit(rng, x, w):
+    """x + high bits: the same low byte / low half, a different unit (widths 2 and 4 only)"""
+    # (kept inside the Unicode scalar range: the unit may sit inside a string body, where the independent
+    # reference reader must be able to represent it)
+    ks = [0x100, 0x2000, 0xFF00] + ([0x10000, 0x100000] if w in ("4", "W") else [])
+    return x + rng.choice(ks)
+
+
 def mutate(rng, u):
     u = list(u)
     if not u:
